@@ -16,6 +16,7 @@ type FuncReport struct {
 	Notes   []string
 	Used    map[string]string
 	Obls    []*Obligation
+	Kind    string
 }
 
 func hasTag(tags []string, p string) bool {
@@ -96,6 +97,7 @@ func verifyFunc(prog *ssa.Program, specs *SpecDB, fn *ssa.Function, opts verifyO
 			rep.Status = "assumed"
 		}
 		for _, r := range f.rets {
+			f.curBlock = r.block
 			ctx := f.ctxFor(fn, args, r.vals, r.st, entry, r.guard)
 			for _, en := range sp.Ensures {
 				if !hasTag(en.Tags, opts.property) && opts.property != "" {
@@ -111,6 +113,7 @@ func verifyFunc(prog *ssa.Program, specs *SpecDB, fn *ssa.Function, opts verifyO
 			}
 		}
 		for i, p := range f.panics {
+			f.curBlock = p.block
 			ctx := f.ctxFor(fn, args, nil, p.st, entry, p.guard)
 			for _, ab := range sp.Abort {
 				if !hasTag(ab.Tags, opts.property) && opts.property != "" {
@@ -143,6 +146,8 @@ type verifyOpts struct {
 	nopanic        bool
 	lockDiscipline bool
 	property       string
+	safetyOnly     bool
+	lockOnly       bool
 }
 
 func sortedKeys(m map[string]string) []string {
@@ -163,6 +168,12 @@ func sortStrings(s []string) {
 }
 
 // query builds the SMT-LIB text of one obligation.
+func (o *Obligation) caseQuery(c string) string {
+	o2 := *o
+	o2.Extra = append(append([]string{}, o.Extra...), c)
+	return o2.query(false)
+}
+
 func (o *Obligation) query(getModel bool) string {
 	var b strings.Builder
 	e := o.Enc
